@@ -97,6 +97,9 @@ Definition parse_int (s : str) : option Z :=
 (* ---------------------------------------------------------------- decimals *)
 Record dec := D { dm : Z; de : Z }.            (* value = dm * 10^de *)
 
+(* exact decimal of the binary number m * 2^k (a double): m * 2^k = (m * 5^-k) * 10^k for k < 0 *)
+Definition dbin (m k : Z) : dec := if 0 <=? k then D (m * 2 ^ k) 0 else D (m * 5 ^ (- k)) k.
+
 Definition dec_eqb (a b : dec) : bool :=
   let e := Z.min (de a) (de b) in
   dm a * 10 ^ (de a - e) =? dm b * 10 ^ (de b - e).
@@ -109,7 +112,14 @@ Fixpoint ndig (fuel : nat) (m : Z) : Z :=
   | O => 0
   | S k => if m <? 10 then 1 else 1 + ndig k (m / 10)
   end.
-Definition ndigits (m : Z) : Z := ndig (S (Z.to_nat (Z.log2 m))) m.
+Definition ndigits_slow (m : Z) : Z := ndig (S (Z.to_nat (Z.log2 m))) m.
+(* same value, computed from a log2 estimate that is checked (the slow loop is the fallback) *)
+Definition ndigits (m : Z) : Z :=
+  let g := Z.log2 m * 30103 / 100000 in
+  if (10 ^ g <=? m) && (m <? 10 ^ (g + 1)) then g + 1
+  else if (1 <=? g) && (10 ^ (g - 1) <=? m) && (m <? 10 ^ g) then g
+  else if (10 ^ (g + 1) <=? m) && (m <? 10 ^ (g + 2)) then g + 2
+  else ndigits_slow m.
 
 (* round-half-even of a / p  (a >= 0, p > 0) *)
 Definition rhe (a p : Z) : Z :=
